@@ -4,6 +4,7 @@ import (
 	"fmt"
 	"go/token"
 	"go/types"
+	"sort"
 	"strings"
 
 	"mrocheck/an"
@@ -20,7 +21,8 @@ func init() {
 			"and the all-chunks-complete flag in Fork.getState, " +
 			"O3 Node.getState returns Running only after every prenode was seen Complete/Disabled and Node.step steps forks only under state==Running; Node.state is only assigned from getState, " +
 			"O4 each dependency-bearing accessor of the call-graph node (ResolvedInputs, Disabled, ResolvedOutputs) flows into Node.prenodes and setPostNode; in makePrenodesForBinding the raw-reference pass (Exp.FindRefs, fork roots) lies on every returning path and its elements are inserted into the prenode set, " +
-			"O5 preflight nodes become prenodes of every non-preflight sub-node and setPrenode recurses into sub-pipelines. " +
+			"O5 preflight nodes become prenodes of every non-preflight sub-node and setPrenode recurses into sub-pipelines, " +
+			"O6 a merge over a run-time fork count whose ForkNode is nil (meaning the mapped call itself, as the runtime's fallback shows) still yields a prenode: FindRefs adds a Call-derived reference or a function reachable from makePrenodesForBinding handles the nil case. " +
 			"NOT decided: that FindRefs returns every reference, metadata state derivation from real files, job manager scheduling.",
 		Assumptions: commonAssumptions,
 	}
@@ -32,6 +34,7 @@ func runC02(c *an.Ctx) {
 	ruleO3(c)
 	ruleO4(c)
 	ruleO5(c)
+	ruleO6(c)
 }
 
 // ---------------------------------------------------------------------------
@@ -735,4 +738,115 @@ func ruleO5(c *an.Ctx) {
 	c.Check("O5", "setPrenode-stores-prenode@(*Node).setPrenode", setPre.Pos(), okMap, "setPrenode must store the prenode into self.prenodes on every path")
 	okPost, _ := an.MustPass(setPre, nil, an.IsReturn, func(in ssa.Instruction) bool { return an.CalleeIs(in, setPost) })
 	c.Check("O5", "setPrenode-registers-postnode@(*Node).setPrenode", setPre.Pos(), okPost, "setPrenode must register self as post-node of the prenode on every path")
+}
+
+// ---------------------------------------------------------------------------
+// O6 merges without a fork node
+// ---------------------------------------------------------------------------
+
+// A MergeExp over a mapped call whose fork count is only known at run time names, in ForkNode, a
+// stage whose forks give the count; ForkNode == nil means "the mapped call itself" (the runtime
+// falls back to MergeExp.Call in TopNode.resolveMerge, and the resolver normalises a fork node equal
+// to the call to nil).  (*MergeExp).FindRefs - what the scheduler builds prenodes from - reports the
+// fork node only when it is non-nil.  Necessary condition: the nil case is accounted for on the
+// scheduling side too: either FindRefs itself adds a reference derived from MergeExp.Call, or a
+// function of package core reachable from makePrenodesForBinding tests MergeExp.ForkNode against nil
+// and reads MergeExp.Call.
+func ruleO6(c *an.Ctx) {
+	p := c.P
+	forkNode := p.Field(pkgSyntax, "MergeExp", "ForkNode")
+	callF := p.Field(pkgSyntax, "MergeExp", "Call")
+	fr := c.NeedFunc(pkgSyntax, "(*MergeExp).FindRefs")
+	mpb := c.NeedFunc(pkgCore, "(*Node).makePrenodesForBinding")
+	if forkNode == nil || callF == nil || fr == nil || mpb == nil {
+		if forkNode == nil || callF == nil {
+			c.Undecided("O6", "anchor(MergeExp.ForkNode/Call)", token.NoPos, "field not found")
+		}
+		return
+	}
+	readsField := func(fn *ssa.Function, f *types.Var) bool {
+		hit := false
+		an.Instrs(fn, func(in ssa.Instruction) {
+			switch x := in.(type) {
+			case *ssa.FieldAddr:
+				if _, g := an.FieldOfAddr(x); g == f {
+					hit = true
+				}
+			case *ssa.Field:
+				if _, g := an.FieldLoad(x); g == f {
+					hit = true
+				}
+			}
+		})
+		return hit
+	}
+	nilTests := func(fn *ssa.Function, f *types.Var) bool {
+		hit := false
+		an.Instrs(fn, func(in ssa.Instruction) {
+			b, ok := in.(*ssa.BinOp)
+			if !ok || (b.Op != token.EQL && b.Op != token.NEQ) {
+				return
+			}
+			if (an.LoadsField(b.X, f) && an.IsNil(b.Y)) || (an.LoadsField(b.Y, f) && an.IsNil(b.X)) {
+				hit = true
+			}
+		})
+		return hit
+	}
+	// the runtime fallback exists (otherwise nil has no meaning and this rule does not apply)
+	runtimeFallback := []string{}
+	for _, fn := range p.FuncsOf(pkgCore) {
+		if nilTests(fn, forkNode) {
+			runtimeFallback = append(runtimeFallback, an.FnName(fn))
+		}
+	}
+	sort.Strings(runtimeFallback)
+	c.Floor("O6", "functions of package core that test MergeExp.ForkNode against nil", len(runtimeFallback), 2)
+	// (a) FindRefs adds something derived from Call
+	frHandles := false
+	an.Instrs(fr, func(in ssa.Instruction) {
+		call, ok := in.(*ssa.Call)
+		if !ok {
+			return
+		}
+		if args, isApp := an.IsBuiltinCall(call, "append"); isApp && len(args) == 2 {
+			sl := newSlice(fr)
+			sl.add(args[1])
+			if v := storedElem(args[1]); v != nil {
+				sl.add(v)
+			}
+			for v := range sl.seen {
+				if fa, ok := v.(*ssa.FieldAddr); ok {
+					if _, g := an.FieldOfAddr(fa); g == callF {
+						frHandles = true
+					}
+				}
+			}
+		}
+	})
+	// (b) the scheduler side handles it
+	corePath := an.ModPath + pkgCore
+	seen := map[*ssa.Function]bool{}
+	var handler string
+	var walk func(fn *ssa.Function, d int)
+	walk = func(fn *ssa.Function, d int) {
+		if fn == nil || seen[fn] || d > 4 || fn.Pkg == nil || fn.Pkg.Pkg.Path() != corePath {
+			return
+		}
+		seen[fn] = true
+		if nilTests(fn, forkNode) && readsField(fn, callF) {
+			handler = an.FnName(fn)
+		}
+		an.Instrs(fn, func(in ssa.Instruction) {
+			if cl := an.AsCallAny(in); cl != nil {
+				walk(cl.Common().StaticCallee(), d+1)
+			}
+		})
+		for _, a := range fn.AnonFuncs {
+			walk(a, d+1)
+		}
+	}
+	walk(mpb, 0)
+	c.Check("O6", "merge-without-fork-node-becomes-prenode@(*Node).makePrenodesForBinding", mpb.Pos(), frHandles || handler != "",
+		fmt.Sprintf("a merge over a run-time fork count with ForkNode == nil takes its forks from MergeExp.Call (runtime fallback in %v); (*MergeExp).FindRefs reports nothing for that case (adds Call-derived reference: %v) and no function reachable from makePrenodesForBinding handles it (handler: %q): the consumer gets no prenode for the mapped call and starts before it has finished", runtimeFallback, frHandles, handler))
 }
